@@ -412,6 +412,26 @@ def resource_api(r):
             tgt = by_name[r.choice(sorted(set(cands)))]
             f = tgt.field.add()
             f.name, f.number, f.label, f.type, f.type_name = "deep_one", 98, 1, 11, d1.fqn
+    api.extra = []
+    if r.random() < 0.6:
+        # resources DECLARED in a dependency package's file (not generated), reached only through references
+        dep = apigen.File("shelving/v1/resources.proto", "shelving.v1", deps=["google/api/resource.proto"])
+        dep.resource_def("shelving.example.com/DepArchive", ["depArchives/{dep_archive}/boxes/{box=**}"])
+        ds = dep.message("DepShelf"); ds.field("name", 1, "string"); ds.resource("shelving.example.com/DepShelf", ["depShelves/{dep_shelf}"])
+        dn = dep.message("DepNote"); dn.field("text", 1, "string")
+        api.main.dep(dep.proto.name)
+        by_name = {"." + api.main.proto.package + "." + m.name: m for m in api.main.proto.message_type}
+        svc = r.choice(api.services).proto
+        cands = sorted({t for meth in svc.method for t in (meth.input_type, meth.output_type) if t in by_name})
+        if cands:
+            tgt = by_name[r.choice(cands)]
+            for nm, num, kw in (("dep_shelf", 95, {"type": "shelving.example.com/DepShelf"}), ("dep_archive_parent", 96, {"child_type": "shelving.example.com/DepArchive"})):
+                f = tgt.field.add(); f.name, f.number, f.label, f.type = nm, num, 1, 9
+                ref = f.options.Extensions[resource_pb2.resource_reference]
+                for k, v in kw.items():
+                    setattr(ref, k, v)
+            f = tgt.field.add(); f.name, f.number, f.label, f.type, f.type_name = "dep_note", 97, 1, 11, dn.fqn
+            api.extra = [dep]
     return api
 
 
@@ -423,7 +443,7 @@ def run_e2e(ctx, n):
             api = resource_api(r)
             # every third library comes from the ads template tree (its client template has its own copy of the helpers)
             req = api.request("transport=grpc,python-gapic-templates=ads-templates,old-naming" if i % 3 == 2
-                              else "transport=" + r.choice(["grpc", "rest", "grpc+rest"]))
+                              else "transport=" + r.choice(["grpc", "rest", "grpc+rest"]), extra_files=api.extra)
         except apigen.Invalid:
             ctx.features["e2e-invalid-candidate"] += 1
             continue
